@@ -170,7 +170,7 @@ def exec_nesting():
     # every kind of run-time error a pointer-free program can raise: the DIAGNOSTIC path itself (message formatting, unwinding
     # out of nested constructs, cleanup) must not crash; the run ends by itself with an error status
     EP = ("struct S { int v; tiny t; string n; int[3] arr; };\nenum E { A, B(int), C(string) };\n"
-          "int dz(int a, int b) { return a / b; }\nint deep(int k) { int[3] q = [1, 2, 3]; if (k == 0) { return q[5]; } return deep(k - 1) + 1; }\n")
+          "void setc(string& r, int i) { r[i] = 'J'; }\nchar getc(string& r, int i) { return r[i]; }\nint dz(int a, int b) { return a / b; }\nint deep(int k) { int[3] q = [1, 2, 3]; if (k == 0) { return q[5]; } return deep(k - 1) + 1; }\n")
 
     def ep(body):
         return EP + "int main() {\n    int a = 1;\n    int zero = 0;\n    int[4] z = [0, 1, 2, 3];\n    int[2][3] m = [[1, 2, 3], [4, 5, 6]];\n    string word = \"hello\";\n    string empty = \"\";\n    S s;\n    s.v = 1;\n%s    println(\"not reached?\");\n    return 0;\n}\n" % body
@@ -184,10 +184,11 @@ def exec_nesting():
             'for (int i = 0; i < 10; i++) { for (int j = 0; j < 10; j++) { if (i * j == 42) { println(z[i]); } } }',
             'while (a < 5) { a = a + 1; { { int w = z[a + 2]; println(w); } } }', 'int i = 0; while (true) { word[i] = \'y\'; i = i + 1; }',
             'string big2 = "a"; for (int i = 0; i < 12; i++) { big2 = big2 + big2; } big2[5000] = \'x\';',
+            'setc(word, 0); println(word);', 'setc(word, 100000); println(word);', 'println(getc(word, 1)); println(getc(word, 9));',
             'println("{z[9]}");', 'println("{a / zero}");', 'println("{word[9]}");', 'string r = "{m[5][5]}"; println(r);',
             'Option<int> o = Option<int>::None; match (o) { Some(v) => { println(v); } }', 'int x = z[z[3] + z[3]];', 'z[z[3] * 2] = z[9];']
     for i, f in enumerate(errs):
-        slug = "emptystr" if f.startswith("empty[") else ("strstore" if ("word[" in f and "= '" in f) or "t[5] =" in f or "s.n[4]" in f or "big2[" in f else "other")
+        slug = "emptystr" if f.startswith("empty[") else "strref" if ("setc(" in f or "getc(" in f) else ("strstore" if ("word[" in f and "= '" in f) or "t[5] =" in f or "s.n[4]" in f or "big2[" in f else "other")
         out.append(("exec-error-path-%s-%d" % (slug, i), ep("    %s\n" % f)))
     # struct definitions that share members (diamonds): the cycle check must stay polynomial
     for n in (8, 14, 20, 26, 32):
